@@ -47,6 +47,12 @@ SHAPES = {
     "union": dict(fields=[("a", "Union[int,str]"), ("w", "int")], values=[
         ("5|1", dict(a=5, w=1)), ("'5'|1", dict(a="5", w=1)), ("'x'|1", dict(a="x", w=1)), ("6|1", dict(a=6, w=1)), ("'5 w=1'|1", dict(a="5 w=1", w=1)),
     ]),
+    # a field whose declared type leaves the class of its value open: two param-classes with the same fields, an int-valued
+    # Enum next to plain ints
+    "classunion": dict(fields=[("p", "Union[Inner,Inner2,En2,int]")], values=[
+        ("Inner(1,2)", dict(p=("Inner", 1, 2))), ("Inner2(1,2)", dict(p=("Inner2", 1, 2))), ("Inner(1,3)", dict(p=("Inner", 1, 3))),
+        ("RED", dict(p=("En2", "RED"))), ("1", dict(p=1)), ("GREEN", dict(p=("En2", "GREEN"))), ("2", dict(p=2)),
+    ]),
     "hdl": dict(fields=[("m", "Instantiable")], values=[("ModA", dict(m="ModA")), ("ModB", dict(m="ModB")), ("R1", dict(m="R1")), ("R2", dict(m="R2")), ("E1", dict(m="E1")), ("E2", dict(m="E2")),
         # calls of an external module with dict parameters: equal dicts written in different key orders, and a different one
         ("D1", dict(m="D1")), ("D1r", dict(m="D1r")), ("D2", dict(m="D2")),
@@ -75,11 +81,21 @@ def make_env():
         u = h.Param(dtype=int, desc="u")
         v = h.Param(dtype=int, desc="v")
 
+    class En2(enum.Enum):
+        RED = 1
+        GREEN = 2
+
+    @h.paramclass
+    class Inner2:
+        u = h.Param(dtype=int, desc="u")
+        v = h.Param(dtype=int, desc="v")
+
     def pc(fields):
         ns = {}
         for n, t in fields:
             dt = {"str": str, "int": int, "Optional[float]": Optional[float], "float": float, "Enum": En, "Inner": Inner, "Prefixed": h.Prefixed,
-                  "Scalar": h.Scalar, "Instantiable": h.Instantiable, "Optional[str]": Optional[str], "Optional[int]": Optional[int], "FrozenSet[str]": FrozenSet[str], "Union[int,str]": Union[int, str]}[t]
+                  "Scalar": h.Scalar, "Instantiable": h.Instantiable, "Optional[str]": Optional[str], "Optional[int]": Optional[int], "FrozenSet[str]": FrozenSet[str], "Union[int,str]": Union[int, str],
+                  "Union[Inner,Inner2,En2,int]": Union[Inner, Inner2, En2, int]}[t]
             ns[n] = h.Param(dtype=dt, desc=n)
         return h.paramclass(type("P", (), ns))
 
@@ -119,6 +135,8 @@ def make_env():
                 v = En[v]
             elif t == "Inner":
                 v = Inner(u=v[0], v=v[1])
+            elif t == "Union[Inner,Inner2,En2,int]" and isinstance(v, tuple):
+                v = Inner(u=v[1], v=v[2]) if v[0] == "Inner" else Inner2(u=v[1], v=v[2]) if v[0] == "Inner2" else En2[v[1]]
             elif t == "Prefixed":
                 v = h.Prefixed(number=Decimal(v[0]), prefix=Prefix.from_exp(v[1]))
             elif t == "Instantiable":
